@@ -114,33 +114,33 @@ type interpreter struct {
 	errorMethods       methodSet              // the method set of reflect.error, which implements the error interface.
 	rtypeMethods       methodSet              // the method set of rtype, which implements the reflect.Type interface.
 	hasherMethods      methodSet
-	runtimeErrorString types.Type             // the runtime.errorString type
-	sizes              types.Sizes            // the effective type-sizing function
-	goroutines         int32                  // atomically updated
+	runtimeErrorString types.Type  // the runtime.errorString type
+	sizes              types.Sizes // the effective type-sizing function
+	goroutines         int32       // atomically updated
 
 	// symbolic execution state
-	cx      *smt.Ctx
-	solver  *smt.Solver
-	ps      *pathState
-	sched   scheduler
-	harness string
-	sh      *Shared
-	worker  int
-	initDone map[*ssa.Package]bool
-	callDepth int
-	funcSteps map[*ssa.Function]int
-	now     int // counter for the time.Now stub
-	cur     *frame
-	inSummary int
-	fixedNow  int64
-	hasFixedNow bool
-	windowNow   value
-	hasWindowNow bool
+	cx                     *smt.Ctx
+	solver                 *smt.Solver
+	ps                     *pathState
+	sched                  scheduler
+	harness                string
+	sh                     *Shared
+	worker                 int
+	initDone               map[*ssa.Package]bool
+	callDepth              int
+	funcSteps              map[*ssa.Function]int
+	now                    int // counter for the time.Now stub
+	cur                    *frame
+	inSummary              int
+	fixedNow               int64
+	hasFixedNow            bool
+	windowNow              value
+	hasWindowNow           bool
 	windowBase, windowSpan int64
-	windowEpoch int
-	stdin       []value
-	stdinSet    bool
-	fnCache map[*ssa.Function]*fnInfo
+	windowEpoch            int
+	stdin                  []value
+	stdinSet               bool
+	fnCache                map[*ssa.Function]*fnInfo
 }
 
 type deferred struct {
@@ -769,4 +769,3 @@ func doRecover(caller *frame) value {
 	}
 	return iface{}
 }
-
